@@ -216,6 +216,47 @@ fn gen_history(rng: &mut Rng, m: &mut GModel, huge: bool, free: bool) -> Vec<Str
     toks
 }
 
+/// a one-call history that keeps the shape tables (wide-table family: all shapes sit on the first
+/// mesh of LOD 0): `replace_vertices` on the last mesh of LOD 0 — any new size when that is not the
+/// first mesh (nothing after it moves), the same vertex / index counts when it is (the stored shape
+/// values stay inside the mesh)
+fn gen_history_keep(rng: &mut Rng, m: &mut GModel) -> Vec<String> {
+    let d = m.lods[0].meshes.len() - 1;
+    let start: usize = m.lods[0].meshes[..d].iter().map(|x| x.indices.len() + x.index_pad).sum();
+    let mesh = &mut m.lods[0].meshes[d];
+    let (vc, ni) = if d == 0 { (mesh.vcount as usize, mesh.indices.len()) } else { (rng.range(0, 60) as usize, rng.below(100) as usize) };
+    let strides: Vec<u8> = mesh.streams.iter().map(|x| x.0).collect();
+    let streams = canonical_streams(rng, &mesh.decl, &strides, vc);
+    let indices: Vec<u16> = (0..ni).map(|_| if vc == 0 { 0 } else { rng.below(vc as u64) as u16 }).collect();
+    let nsub = mesh.subs.len();
+    let mut cuts: Vec<usize> = (0..nsub.saturating_sub(1)).map(|_| rng.below((ni + 1) as u64) as usize).collect();
+    cuts.sort();
+    let mut pairs = Vec::new();
+    let mut prev = 0usize;
+    for i in 0..nsub {
+        let end = if i + 1 == nsub { ni } else { cuts[i] };
+        pairs.push(((start + prev) as u32, (end - prev) as u32));
+        prev = end;
+    }
+    let tok = format!(
+        "rv=0:{}:{}:{}:{}:{}",
+        d,
+        vc,
+        dot_streams(&streams),
+        u16be(&indices),
+        if pairs.is_empty() { "-".to_string() } else { pairs.iter().map(|(o, c)| format!("{}.{}", o, c)).collect::<Vec<_>>().join("/") }
+    );
+    mesh.vcount = vc as u16;
+    mesh.streams = streams;
+    mesh.indices = indices;
+    mesh.index_pad = 0;
+    for (i, (o, c)) in pairs.iter().enumerate() {
+        mesh.subs[i].off = *o;
+        mesh.subs[i].count = *c;
+    }
+    vec![tok]
+}
+
 pub fn generate(thorough: bool, seed: u64, out: &mut dyn Write) {
     let mut rng = Rng::new(seed, "C07");
     if let Ok(b) = std::fs::read(sample_path()) {
@@ -276,6 +317,24 @@ pub fn generate(thorough: bool, seed: u64, out: &mut dyn Write) {
         writeln!(out, "editfree {} | {}", base, toks.join(" ")).unwrap();
         if i % 10 == 1 {
             writeln!(out, "wbytes {} | {}", base, toks.join(" ")).unwrap();
+        }
+    }
+    // wide tables (`c06::gen_wide_opts`, canonical): every table of the runtime block with >= 255 rows /
+    // sizes at 2^16, written unedited, after a history (`update_headers`, `calculate_runtime_size`
+    // over the wide table), and byte-exact
+    for round in 0..if thorough { 30 } else { 1 } {
+        for &kind in WIDE_KINDS_CANONICAL {
+            let fixed = if round == 0 && !thorough && kind != 9 && kind < 12 { Some(*rng.pick(&[256usize, 257, 300])) } else { None };
+            let mut m = gen_wide_opts(&mut rng, kind, fixed, true);
+            let base = m.tokens();
+            match (round + kind) % 3 {
+                0 => writeln!(out, "write {}", base).unwrap(),
+                1 => writeln!(out, "wbytes {} |", base).unwrap(),
+                _ => {}
+            }
+            // shape tables kept (always when they are the wide table) or the ordinary history
+            let toks = if (5..=7).contains(&kind) || rng.chance(1, 2) { gen_history_keep(&mut rng, &mut m) } else { gen_history(&mut rng, &mut m, false, false) };
+            writeln!(out, "{} {} | {}", if (round + kind) % 4 == 3 { "wbytes" } else { "edit" }, base, toks.join(" ")).unwrap();
         }
     }
 }
